@@ -55,6 +55,10 @@ def run(ctx):
         if (b["enabled"], b["mode"], b["override"], b["cutoff"], b["types"]) != (cfg_["enabled"], cfg_["mode"], cfg_["override"], cfg_["cutoff"], sorted(cfg_["types"])):
             ctx.report("C26:config:tahoe_cfg_parsed_differently", "expire.* options %r gave a crawler configured as %r" % (cfg_, b), dict(rep, built=b))
             continue
+        if o.get("crash"):
+            ctx.report("C26:%s:cycle_raised_%s" % (cls, o["crash"].split(":")[0]), "the crawl cycle raised %s (cfg %s): shares that the Spec deletes stay, "
+                       "leases it removes stay" % (o["crash"], json.dumps(cfg_)), dict(rep, crash=o["crash"]))
+            continue
         if o["finished_cycle"] != 0:
             ctx.report("C26:%s:cycle_not_finished" % cls, "the crawl cycle did not finish in one slice with pinned time", rep)
             continue
